@@ -105,6 +105,15 @@ def runDnHist (ops : List Sexp) : R Sexp := do
                .list (.atom "iter" :: dn.iter.map (fun e => .list [encDnType e.1, encDnValue e.2])),
                .list [.atom "name", ofBytes (encode (writeDistinguishedName dn))]])
 
+/-- the back end of a build named by its features: `ring`, `aws` (aws_lc_rs alone), `both` -/
+def parseBackend (s : String) : R Backend := do
+  let f : BackendFeatures ← match s with
+    | "ring" => pure ⟨true, false⟩ | "aws" => pure ⟨false, true⟩ | "both" => pure ⟨true, true⟩
+    | s => throw s!"bad backend {s}"
+  match f.backend with
+  | some b => pure b
+  | none => throw "no back end"
+
 def handle (op : String) (args : List Sexp) : R Sexp := do
   match op, args with
   | "ping", _ => pure (.atom "pong")
@@ -282,6 +291,15 @@ def handle (op : String) (args : List Sexp) : R Sexp := do
       | "publicKey" => pure PemKind.publicKey
       | s => throw s!"bad pem kind {s}"
     pure (ofBytes (pemEncode kind.label (← der.asBytes)))
+  | "key-text", [which, doc] => do
+    let k ← match ← which.asAtom with
+      | "held" => pure (KeyHolder.held (← doc.asBytes))
+      | "remote" => pure KeyHolder.remote
+      | s => throw s!"bad key holder {s}"
+    let show_ : Option Bytes → Sexp := fun
+      | some b => .list [.atom "ok", ofBytes b]
+      | none => .atom "panic"
+    pure (.list [show_ k.serializeDer, show_ k.serializePem])
   | "spec-pem", [t] => do
     match Spec.pemDecode (← t.asBytes) with
     | some (l, d) => pure (.list [.atom "ok", ofBytes l, ofBytes d])
@@ -311,15 +329,13 @@ def handle (op : String) (args : List Sexp) : R Sexp := do
         .list [.atom "key", .atom (algName r.key.alg), ofBytes r.key.raw]])
     | .error e => pure (.list [.atom "err", .atom (errName e)])
   | "alg-from-oid", [b, .list arcs] => do
-    let b ← match ← b.asAtom with
-      | "ring" => pure Backend.ring | "aws" => pure Backend.aws | s => throw s!"bad backend {s}"
+    let b ← parseBackend (← b.asAtom)
     let oid ← arcs.mapM Sexp.asNat
     match algFromOid b oid with
     | some a => pure (.list [.atom "ok", .atom (algName a)])
     | none => pure (.list [.atom "err", .atom "UnsupportedSignatureAlgorithm"])
   | "key-export", [b, fmt, kty] => do
-    let b ← match ← b.asAtom with
-      | "ring" => pure Backend.ring | "aws" => pure Backend.aws | s => throw s!"bad backend {s}"
+    let b ← parseBackend (← b.asAtom)
     let kty ← match ← kty.asAtom with
       | "ed25519" => pure KeyType.ed25519 | "p256" => pure KeyType.p256 | "p384" => pure KeyType.p384
       | "p521" => pure KeyType.p521 | "rsa" => pure KeyType.rsa | "rsaBig" => pure KeyType.rsaBig
@@ -334,8 +350,7 @@ def handle (op : String) (args : List Sexp) : R Sexp := do
     pure (.atom (match out with
       | .pkcs8v1 => "pkcs8v1" | .pkcs8v2 => "pkcs8v2" | .sec1 => "sec1" | .pkcs1 => "pkcs1"))
   | "key-load", [b, entry, alg, fmt, kty] => do
-    let b ← match ← b.asAtom with
-      | "ring" => pure Backend.ring | "aws" => pure Backend.aws | s => throw s!"bad backend {s}"
+    let b ← parseBackend (← b.asAtom)
     let fmt ← match ← fmt.asAtom with
       | "pkcs8v1" => pure DocFormat.pkcs8v1 | "pkcs8v2" => pure DocFormat.pkcs8v2
       | "sec1" => pure DocFormat.sec1 | "pkcs1" => pure DocFormat.pkcs1 | s => throw s!"bad fmt {s}"
@@ -355,8 +370,7 @@ def handle (op : String) (args : List Sexp) : R Sexp := do
     | .err .keyRejected => pure (.list [.atom "err", .atom "RingKeyRejected"])
     | .panic => pure (.atom "panic")
   | "spki-lookup", [b, der] => do
-    let b ← match ← b.asAtom with
-      | "ring" => pure Backend.ring | "aws" => pure Backend.aws | s => throw s!"bad backend {s}"
+    let b ← parseBackend (← b.asAtom)
     match spkiAlgLookup b (← der.asBytes) with
     | some a => pure (.list [.atom "ok", .atom (algName a)])
     | none => pure (.list [.atom "err", .atom "UnsupportedSignatureAlgorithm"])
@@ -433,8 +447,7 @@ def handle (op : String) (args : List Sexp) : R Sexp := do
       | s => throw s!"bad pem error {s}"
     pure (ofBytes (pemErrorOf e).display)
   | "spki-from-der", [b, der] => do
-    let b ← match ← b.asAtom with
-      | "ring" => pure Backend.ring | "aws" => pure Backend.aws | s => throw s!"bad backend {s}"
+    let b ← parseBackend (← b.asAtom)
     match spkiFromDer b (← der.asBytes) with
     | some k => pure (.list [.atom "ok", .atom (algName k.alg), ofBytes k.raw])
     | none => pure (.atom "err")
